@@ -187,7 +187,7 @@ func GenFragmentTLS(r *rng.R) *scen.Scenario {
 		port := rng.Pick(r, []gatewayv1.PortNumber{443, 443, 8443})
 		mk := func(name, host, sec string) gatewayv1.Listener {
 			return gatewayv1.Listener{Name: gatewayv1.SectionName(name), Port: port, Protocol: gatewayv1.HTTPSProtocolType,
-				Hostname: ptr(gatewayv1.Hostname(host)),
+				Hostname:      ptr(gatewayv1.Hostname(host)),
 				AllowedRoutes: &gatewayv1.AllowedRoutes{Namespaces: &gatewayv1.RouteNamespaces{From: ptr(gatewayv1.NamespacesFromAll)}},
 				TLS: &gatewayv1.GatewayTLSConfig{Mode: ptr(gatewayv1.TLSModeTerminate),
 					CertificateRefs: []gatewayv1.SecretObjectReference{{Name: gatewayv1.ObjectName(sec)}}}}
